@@ -481,11 +481,33 @@ impl Compiler {
             } => {
                 // If this expression is a combination of a constant & a variable, create an optimized instruction for it that skips the stack
                 match (&**left, &**right) {
-                    (Expr::Identifier(name), Expr::Int { value })
-                    | (Expr::Int { value }, Expr::Identifier(name)) => {
+                    // `x op c`: the variable is the left operand, which is what the specialized instructions compute
+                    (Expr::Identifier(name), Expr::Int { value }) => {
                         let res = self.compile_const_var_infix_expression(name, *value, operator);
                         if res.is_ok() {
                             return res;
+                        }
+                    }
+                    // `c op x`: the specialized instructions compute `x op c`, so this is only valid
+                    // for commutative operators or by mirroring the comparison
+                    (Expr::Int { value }, Expr::Identifier(name)) => {
+                        let mirrored = match operator {
+                            Operator::Add => Some(Operator::Add),
+                            Operator::Multiply => Some(Operator::Multiply),
+                            Operator::Eq => Some(Operator::Eq),
+                            Operator::Neq => Some(Operator::Neq),
+                            Operator::Lt => Some(Operator::Gt),
+                            Operator::Lte => Some(Operator::Gte),
+                            Operator::Gt => Some(Operator::Lt),
+                            Operator::Gte => Some(Operator::Lte),
+                            _ => None,
+                        };
+                        if let Some(mirrored) = mirrored {
+                            let res =
+                                self.compile_const_var_infix_expression(name, *value, &mirrored);
+                            if res.is_ok() {
+                                return res;
+                            }
                         }
                     }
                     _ => (),
